@@ -318,7 +318,7 @@ Definition rstep (fuel : nat) (a : action) (st : rstate) : option (robs * rstate
         | _ => Some (RONone, mkRSt (dropreq (re_rid (rr_eff r)) (r_c st)) (r_n st) (r_effs st) (r_evs st) (set_nth i (mkRR (rr_eff r) 3) (r_reqs st)))
         end
       end
-  | AAbort _ | AEvent _ _ => Some (RONone, st)
+  | AAbort _ | AEvent _ _ | ALive => Some (RONone, st)
   | ASpawn t =>
       (* one more strand of the outermost command: it runs beside whatever is there *)
       Some (RONone, mkRSt (RPar [r_c st; RBag (start_bag [] t [])]) (r_n st) (r_effs st) (r_evs st) (r_reqs st))
